@@ -22,6 +22,9 @@ COOKIES = ['none', 'name', 'dict_str', 'dict_true', 'dict_false', 'dict_callable
 OUTCOMES = ['None', 'True', 'False', '0', 'empty', 'text', 'dict', 'list', 'raise', 'send_accept', 'send_reject']
 
 
+_COOKIE_BOX = {'n': 0}     # set by the harness before each open; the callable cookie attribute reads it
+
+
 def cookie_cfg(kind):
     if kind == 'none':
         return None
@@ -34,13 +37,13 @@ def cookie_cfg(kind):
     if kind == 'dict_false':
         return {'name': 'c3', 'Secure': False, 'path': '/'}
     if kind == 'dict_callable':
-        return {'name': 'c4', 'Max-Age': lambda: '60', 'Secure': lambda: True}
+        return {'name': 'c4', 'Max-Age': lambda: str(60 + _COOKIE_BOX['n']), 'Secure': lambda: True}
     if kind == 'dict_noname':
         return {'path': '/y'}
     raise AssertionError(kind)
 
 
-def cookie_ref(kind, sid):
+def cookie_ref(kind, sid, n=0):
     """Accepted Set-Cookie values (list of alternatives) or None."""
     if kind == 'none':
         return None
@@ -53,7 +56,7 @@ def cookie_ref(kind, sid):
     if kind == 'dict_false':
         return ['c3=%s; path=/' % sid, 'c3=%s; Secure=False; path=/' % sid]
     if kind == 'dict_callable':
-        return ['c4=%s; Max-Age=60; Secure' % sid]
+        return ['c4=%s; Max-Age=%d; Secure' % (sid, 60 + n)]     # the callable is evaluated for every handshake
     if kind == 'dict_noname':
         return ['io=%s; path=/y' % sid]
 
@@ -134,6 +137,7 @@ def _viol(impl, kind, trigger, text, cell, via):
 
 def run_cell(impl, via, cell, out):
     """One open request against a freshly configured server."""
+    _COOKIE_BOX['n'] = 0
     kw = dict(ping_interval=tuple(cell['interval']) if isinstance(cell['interval'], (list, tuple)) else cell['interval'],
               ping_timeout=cell['timeout'], max_http_buffer_size=cell['buf'],
               allow_upgrades=cell['allow'], cookie=cookie_cfg(cell['cookie']))
@@ -249,6 +253,7 @@ def run_cell(impl, via, cell, out):
             if via == 'polling' and not cell['jsonp']:
                 # serving an open must not change what the next open is told (configuration is not consumed)
                 for attempt in (2, 3):
+                    _COOKIE_BOX['n'] = attempt - 1
                     r2 = w.http('GET', peer.BASEQ)
                     w.run()
                     d2 = peer.open_data(r2)
@@ -261,7 +266,7 @@ def run_cell(impl, via, cell, out):
                     if same != want:
                         V('repeat_open_differs', 'open#%d' % attempt, 'open #%d announced %r, want %r' % (attempt, same, want))
                     ck2 = [v for k, v in (r2.resp_headers or []) if k.lower() == 'set-cookie']
-                    ref2 = cookie_ref(cell['cookie'], sid2)
+                    ref2 = cookie_ref(cell['cookie'], sid2, attempt - 1)
                     if (ref2 is None and ck2) or (ref2 is not None and (len(ck2) != 1 or ck2[0] not in ref2)):
                         V('cookie_wrong', 'cookie=%s open#%d' % (cell['cookie'], attempt), 'open #%d: Set-Cookie %r, want one of %r' % (attempt, ck2, ref2))
                     if sid2 == hsid:
